@@ -212,6 +212,21 @@ def tag_block(rng, k=None, n=None, gid=None):
     body = b','.join(parts)
     return body + b'*%02X' % checksum(body)
 
+HOSTILE_VALUES = [b'', b'-1', b'-0', b'+1', b'0', b'00', b'1e30', b'1e400', b'1E5', b'-1e30', b'nan', b'NaN', b'inf', b'-inf', b'infinity',
+                  b'0.5', b'.5', b'1.', b'1.5e3', b'0x10', b'255', b'256', b'65535', b'65536', b'4294967295', b'4294967296',
+                  b'18446744073709551615', b'18446744073709551616', b'9' * 40, b'1-2', b'1-2-3', b'0-0-0', b'2-1-5', b'1-0-1', b'256-256-256',
+                  b'-1-2-3', b'1--2', b'1-2-', b'-', b'--', b':', b'c:1', b'\xff', b'\xc3\xa9', b' 1', b'1 ', b'a']
+
+def hostile_tag_block(rng, good_checksum=True):
+    """a TAG block whose parameters carry every kind of value a reader might choke on, with a correct block
+    checksum (so that a reader which validates the block before using it gets that far)"""
+    codes = [b'c', b'g', b'n', b's', b'd', b't', b'r', b'x', b'G', b'C', b'']
+    parts = [rng.choice(codes) + b':' + rng.choice(HOSTILE_VALUES) for _ in range(rng.choice([1, 1, 2, 3]))]
+    if rng.random() < 0.1: parts.append(rng.choice(HOSTILE_VALUES))
+    body = b','.join(parts).replace(b'\\', b'/').replace(b'*', b'+')
+    cs = checksum(body) if good_checksum else checksum(body) ^ 0x55
+    return body + b'*%02X' % cs
+
 def fragment(rng, payload, fill, n, sid, chan=b'A', cuts=None):
     """split an armoured payload into n sentences at random character boundaries (non-empty parts)"""
     L = len(payload)
@@ -253,10 +268,30 @@ def mutate(rng, line):
         return b','.join(parts)
     return bytes(line)
 
+ILLEGAL_ARMOR = bytes(range(88, 96)) + bytes(range(120, 128)) + b' !"#$%&\'()+-./' + bytes([0, 9, 128, 200, 255])
+
+def undecodable_sentence(rng, kind=None, **kw):
+    """a sentence that is well-formed at the sentence level (checksum included) and fails at the payload level:
+    0 a character outside the armouring alphabet behind a valid prefix (unarmoring stops half-way), 1 such a
+    character in first place, 2 a type no decoder exists for, 3 a payload too short for its type"""
+    kind = rng.randrange(4) if kind is None else kind
+    pay, fill = armor(message_bits(rng, rng.choice(SUPPORTED), rng.choice(['random', 'ones', 'mixed'])))
+    pay = bytearray(pay)
+    if kind == 0:
+        pos = rng.choice([1, 1, 2, len(pay) - 1, rng.randrange(1, len(pay))]) if len(pay) > 1 else 0
+        pay[pos] = rng.choice(ILLEGAL_ARMOR)
+    elif kind == 1:
+        pay[0] = rng.choice(ILLEGAL_ARMOR)
+    elif kind == 2:
+        pay[0] = armor_char(rng.choice([0, 22, 23, 25, 26, 28, 40, 63]))
+    else:
+        pay = pay[:rng.randrange(1, 7)]
+    return sentence(bytes(pay), fill, **kw)
+
 def valid_sentence(rng, t=None, decode_ok=True):
     t = t or rng.choice(SUPPORTED)
     payload, fill = armor(message_bits(rng, t))
     return sentence(payload, fill, chan=rng.choice([b'A', b'B', b'', b'1', b'AB']),
                     addr=rng.choice([b'AIVDM', b'AIVDO', b'ABVDM', b'BSVDM', b'SAVDO', b'XXVDM', b'AIXXX']),
                     start=rng.choice([b'!', b'!', b'$']),
-                    tag=rng.choice([None, None, None, b's:2573345,c:1696241893*00', b'', tag_block(rng)]))
+                    tag=rng.choice([None, None, None, None, None, None, b's:2573345,c:1696241893*00', b'', tag_block(rng), tag_block(rng), hostile_tag_block(rng), hostile_tag_block(rng, rng.random() < 0.8)]))
